@@ -2,6 +2,7 @@ package main
 
 import (
 	"fmt"
+	"os"
 	"sort"
 
 	hg "github.com/mosaicnetworks/babble/src/hashgraph"
@@ -93,6 +94,9 @@ func (r *Recorder) add(ev *hg.Event, n *SimNode) *RecEvent {
 
 // observe scans every live node for events it did not have after the previous
 // step and records them (per-node insertion order = local topological index).
+var traceEvent = os.Getenv("VERIF_TRACE_EVENT")
+var traceSteps = os.Getenv("VERIF_TRACE_STEPS")
+
 func (r *Recorder) observe() {
 	for _, n := range r.nw.Nodes {
 		if n.Node == nil || n.Puppet || n.Store == nil || n.storeClosed() {
@@ -149,7 +153,29 @@ func (r *Recorder) observeNode(n *SimNode) {
 				continue
 			}
 			n.has[h] = true
-			r.add(ev, n)
+			re := r.add(ev, n)
+			if traceSteps != "" && re != nil {
+				var lo, hi int
+				fmt.Sscanf(traceSteps, "%d-%d", &lo, &hi)
+				if r.nw.Step >= lo && r.nw.Step <= hi && re.FirstStep == r.nw.Step && re.FirstNode == n.Idx {
+					opc := -2
+					if o := r.Events[re.OtherParent]; o != nil {
+						opc = o.CreatorIdx
+					}
+					opi := -1
+					if o := r.Events[re.OtherParent]; o != nil {
+						opi = o.Index
+					}
+					fmt.Fprintf(os.Stderr, "TRACESTEP step=%d new event creator %d index %d txs=%d other-parent creator %d index %d (first at node %d)\n", r.nw.Step, re.CreatorIdx, re.Index, len(re.Txs), opc, opi, n.Idx)
+				}
+			}
+			if traceEvent != "" && re != nil && fmt.Sprintf("%d:%d", re.CreatorIdx, re.Index) == traceEvent {
+				la := -1
+				if r.nw.lastActor != nil {
+					la = r.nw.lastActor.Idx
+				}
+				fmt.Fprintf(os.Stderr, "TRACE step=%d node %d now holds event %s (creator %d index %d, other-parent %s); last actor of the step: node %d; node state %s\n", r.nw.Step, n.Idx, trunc(h, 12), re.CreatorIdx, re.Index, trunc(re.OtherParent, 12), la, n.Node.GetState())
+			}
 			fresh = append(fresh, newEv{ev, ev.VerifTopologicalIndex()})
 		}
 		n.known[id] = last
